@@ -16,24 +16,27 @@ def names(n, prefix):
     return ["%s%d" % (prefix, k + 1) for k in range(n)]
 
 
-def make_operand(model, name, shape, values, kind, named, other_names=False):
-    """kind: "element" | "literal" (scalars only).  returns the Python operand"""
+def make_operand(model, name, shape, values, kind, named, other_names=False, order="fwd", el=None, cls="constant"):
+    """kind: "element" | "literal" (scalars only).  returns the Python operand.  order "rev": a named array declares its
+    names in reverse order (every value stays with its name).  el: an existing element that is set up again"""
     m, n = shape
+    rv = (lambda seq: list(reversed(list(seq)))) if order == "rev" else (lambda seq: list(seq))
     if (m, n) == (0, 0):
         if kind == "literal":
             return values
         c = model.constant(name); c.equation = values
         return c
-    el = model.constant(name)
+    if el is None:
+        el = getattr(model, cls)(name)
     p1, p2 = ("u", "w") if other_names else ("x", "y")
     if m == 0:
         if named:
-            el.setup_named_vector(dict(zip(names(n, p1), values)))
+            el.setup_named_vector(dict(rv(zip(names(n, p1), values))))
         else:
             el.setup_vector(n, list(values))
     else:
         if named:
-            el.setup_named_matrix({r: dict(zip(names(n, p2), row)) for r, row in zip(names(m, p1), values)})
+            el.setup_named_matrix({r: dict(rv(zip(names(n, p2), row))) for r, row in rv(zip(names(m, p1), values))})
         else:
             el.setup_matrix([m, n], [list(r) for r in values])
     return el
@@ -94,7 +97,12 @@ def numpy_result(case, A, B):
         return float(s[min(r, len(s)) - 1])
 
 
-def run_case(R, case, named, scalar_kind, n_case, mismatch_names=False):
+def zeros(shape):
+    m, n = shape
+    return [0.0] * n if m == 0 else [[0.0] * n for _ in range(m)]
+
+
+def run_case(R, case, named, scalar_kind, n_case, mismatch_names=False, result="converter"):
     BPTK_Py = common.use_repo()
     from BPTK_Py import Model
     sa, sb = tuple(case["sa"]), tuple(case["sb"])
@@ -104,22 +112,57 @@ def run_case(R, case, named, scalar_kind, n_case, mismatch_names=False):
     if case["form"] == "agg" and case["op"] == "variance":
         pass
     model = Model(starttime=0.0, stoptime=1.0, dt=1.0, name="c10_%d" % n_case)
-    info = {"form": case["form"], "op": case["op"], "shape_a": list(sa), "shape_b": list(sb), "named": named, "scalar": scalar_kind, "A": A, "B": B}
+    info = {"form": case["form"], "op": case["op"], "shape_a": list(sa), "shape_b": list(sb), "named": named, "scalar": scalar_kind, "A": A, "B": B,
+            "result_element": result}
+    oa, ob, ores = case.get("orders", ["fwd", "fwd", "fwd"])
+    if "orders" in case:
+        info["declaration_orders"] = {"a": oa, "b": ob, "result": ores}
+    prev = tuple(case["prev"]) if "prev" in case else None
+    accepted = False
     try:
-        a = make_operand(model, "opa", sa, A, scalar_kind, named)
+        if prev:
+            # the array first exists with the smaller shape and is used once, then it is set up again with its final shape
+            info["previous_shape_of_a"] = list(prev)
+            pv = [float(k + 1) for k in range(prev[1])] if prev[0] == 0 else [[float(10 * r + k + 1) for k in range(prev[1])] for r in range(prev[0])]
+            a = make_operand(model, "opa", prev, pv, scalar_kind, named)
+            first = model.converter("first")
+            first.equation = a * 2.0
+            got1 = read_result(first, prev, named, 0.0)
+            if not close(got1, (np.array(pv) * 2.0).tolist()):
+                R.violation("arrayed result differs from the numpy result", dict(info, expected=(np.array(pv) * 2.0).tolist(), observed=got1, stage="before re-dimensioning"))
+                return
+            if prev[0] > 0:
+                a._elements.matrix_size()
+            a = make_operand(model, "opa", sa, A, scalar_kind, named, el=a)
+        else:
+            a = make_operand(model, "opa", sa, A, scalar_kind, named, order=oa)
         if case["form"] == "agg":
             expr = {"sum": lambda: a.arr_sum(), "prod": lambda: a.arr_prod(), "mean": lambda: a.arr_mean(), "median": lambda: a.arr_median(),
                     "variance": lambda: a.arr_stddev(), "size": lambda: a.arr_size(), "rank": lambda: a.arr_rank(int(B))}[case["op"]]()
         else:
-            b = make_operand(model, "opb", sb, B, scalar_kind, named, other_names=mismatch_names)
+            b = make_operand(model, "opb", sb, B, scalar_kind, named, other_names=mismatch_names, order=ob)
             if case["form"] == "dot":
                 expr = a.dot(b)
             else:
                 expr = {"+": lambda: a + b, "-": lambda: a - b, "*": lambda: a * b, "/": lambda: a / b}[case["op"]]()
-        res = model.converter("res")
-        res.equation = expr
-        got = read_result(res, res_shape(case), named, 0.0)
+        if result == "stock":
+            # the result is the net flow of an arrayed stock (declared with its own name order, initial values 0): after one
+            # step of length 1 the stock holds exactly the value of the expression
+            res = make_operand(model, "res", res_shape(case), zeros(res_shape(case)), "element", named, order=ores, cls="stock")
+            res.equation = expr
+            accepted = True
+            got = read_result(res, res_shape(case), named, 1.0)
+        else:
+            res = model.converter("res")
+            res.equation = expr
+            accepted = True
+            got = read_result(res, res_shape(case), named, 0.0)
     except Exception as e:
+        if accepted and not expect_reject:
+            # the equation was accepted, so every entry of the numpy result must be there to be read
+            R.violation("an accepted arrayed equation lacks entries of the numpy result (or they cannot be evaluated)",
+                        dict(info, expected=exp, error="%s: %s" % (type(e).__name__, str(e)[:120])))
+            return
         R.add("rejected_by_dsl")
         if not expect_reject:
             # an accepted-by-numpy operation the DSL rejects is not a wrong value: the property speaks of accepted equations
@@ -157,6 +200,18 @@ def run(tier, replay_file=None):
     R.cov["exhaustive"] = True
     n = 0
     for case in cases:
+        if "orders" in case:        # by-name correspondence under permuted declaration orders, converter and stock results
+            for result in ("converter", "stock"):
+                n += 1
+                run_case(R, case, True, "element", n, result=result)
+                R.add("traces_validated_against_impl"); R.add("permuted_declaration_cases")
+            continue
+        if "prev" in case:
+            for named in (False, True):
+                n += 1
+                run_case(R, case, named, "element", n)
+                R.add("traces_validated_against_impl"); R.add("redimensioned_cases")
+            continue
         scal = tuple(case["sa"]) == (0, 0) or tuple(case["sb"]) == (0, 0)
         both_arrays = tuple(case["sa"]) != (0, 0) and tuple(case["sb"]) != (0, 0)
         for named in (False, True):
@@ -166,6 +221,11 @@ def run(tier, replay_file=None):
                 n += 1
                 run_case(R, case, named, sk, n)
                 R.add("traces_validated_against_impl")
+        if case["form"] == "ew" and case["res"] != "reject" and tuple(case["sa"]) != (0, 0):
+            for named in (False, True):        # the same operation as the equation of an arrayed stock
+                n += 1
+                run_case(R, case, named, "element", n, result="stock")
+                R.add("traces_validated_against_impl"); R.add("stock_result_cases")
         if case["form"] == "ew" and both_arrays and case["sa"] == case["sb"]:
             n += 1
             run_case(R, case, True, "element", n, mismatch_names=True)     # equal shapes, different index names
